@@ -459,10 +459,16 @@ where
         #[cfg(feature = "verif")]
         let r: T = crate::verif::tap_scalar("categorical.r", r);
         let mut cum: T = T::zero();
-        let mut k = self.probs.len() - 1;
+        // Fall back (when rounding leaves `r` at or above the final cumulative sum) to the
+        // last category that can actually occur.
+        let mut k = self
+            .probs
+            .iter()
+            .rposition(|&p| p > T::zero())
+            .unwrap_or(self.probs.len() - 1);
         for (i, &p) in self.probs.iter().enumerate() {
             cum += p;
-            if r <= cum {
+            if r < cum {
                 k = i;
                 break;
             }
